@@ -2,12 +2,15 @@
  *                (C01 reads return the latest write, C06, C07 iterators ordered and complete in both directions)
  *
  * The memtable units (units/mem.c) MODEL the skip list and the arena.  This group
- * verifies the real ones.  One source, three sections selected by the unit's "defines":
+ * verifies the real ones.  One source, sections selected by the unit's "defines":
  *
- *   (default)    skl.init .. skl.iter_*   real skiplist.c; the arena is an exact-size allocator (a node that is too
- *                                         small for its height is then an out-of-bounds access, not silent slack)
+ *   (default)    skl.init .. skl.iter_*   real skiplist.c; the arena is an exact-size allocator model (typed node
+ *                                         stores, link slots beyond the requested size are poisoned: a node that
+ *                                         is too small for its height is a pointer-check failure, not silent slack)
  *   -DSKL_ARENA  skl.arena_*              real util/arena.c (+ real util/vector.c)
- *   -DSKL_MEM    skl.mi_*, skl.mt_*, skl.e2e   real memtable.c + skiplist.c + arena.c together
+ *   -DSKL_MEM    skl.mi_*, skl.mt_life    real memtable.c + skiplist.c + arena.c together (+ vector.c, buffer.c,
+ *                                         slice.c, iterator.c)
+ *   -DSKL_MEM -DSKL_STUB_ARENA  skl.e2e*  real memtable.c + skiplist.c, arena model as in the default section
  *
  * Skip list (LevelDB db/skiplist.h).  Abstract state: a finite sequence of keys, strictly increasing under the
  * comparator.  Representation invariant RI(list):
@@ -19,8 +22,9 @@
  * The harness builds an arbitrary list satisfying RI from at most SKL_N nodes of height <= SKL_H with symbolic,
  * strictly increasing key ids, symbolic heights and a symbolic max_height in [tallest node, 12]; shape_errors()
  * re-evaluates RI against an expected node sequence after the call.  "For all levels / nodes" are the harness's
- * own constant-bounded loops, so every statement below is BOUNDED by (SKL_N, SKL_H); the code under test runs
- * with symbolic heights up to 12 for the inserted node.
+ * own constant-bounded loops, so the list units are BOUNDED by (SKL_N, SKL_H); the code under test runs with
+ * symbolic heights up to 12 for the inserted node.  Unbounded (mode "proof") are the loop-free / constant-loop
+ * units: skl.init, skl.randheight, skl.key_after, skl.arena_alloc, skl.arena_aligned, skl.mi_kv, skl.mt_life.
  *
  * Keys are what the memtable stores: length-prefixed strings.  Here: 2 bytes { 0x01, id }.  The list's comparator
  * is a model over the ids (total order of uint8_t) that answers with an ARBITRARY negative / positive number
@@ -794,7 +798,8 @@ static void mcmp_setup(ldb_comparator_t *cmp, int mode) {
  * the requested size. */
 #define POOL_N 4
 struct mem_pstore { const uint8_t *key; struct ldb_skipnode_s *volatile next[SKL_MAXH]; };
-static struct mem_pstore g_pool[POOL_N];
+static struct mem_pstore g_p0, g_p1, g_p2, g_p3;   /* separate objects: a pointer into an ARRAY of stores has a symbolic offset */
+#define POOL(i) ((i) == 0 ? &g_p0 : (i) == 1 ? &g_p1 : (i) == 2 ? &g_p2 : &g_p3)
 static char g_mpoison_obj;
 #define MPOISON ((struct ldb_skipnode_s *)(&g_mpoison_obj + 1))
 struct stub_arena_ghost { int aligned_calls, plain_calls, inits, clears; size_t usage; size_t size[POOL_N]; int overflow; } SA;
@@ -805,9 +810,9 @@ void *ldb_arena_alloc_aligned(ldb_arena_t *arena, size_t size) {
   int l, i = SA.aligned_calls;
   (void)arena;
   if (i >= POOL_N) { SA.overflow = 1; i = POOL_N - 1; }
-  for (l = 0; l < SKL_MAXH; l++) if (sizeof(void *) * (size_t)(l + 2) > size) g_pool[i].next[l] = MPOISON;
+  for (l = 0; l < SKL_MAXH; l++) if (sizeof(void *) * (size_t)(l + 2) > size) POOL(i)->next[l] = MPOISON;
   SA.size[i] = size; SA.aligned_calls++; SA.usage += size;
-  return &g_pool[i];
+  return POOL(i);
 }
 void *ldb_arena_alloc(ldb_arena_t *arena, size_t size) {
   void *p = malloc(size);
@@ -933,6 +938,9 @@ void h_mt_life(void) {
 #ifndef E2E_K
 #define E2E_K 2
 #endif
+#ifndef E2E_HLIM
+#define E2E_HLIM 2     /* node heights 1 .. 1 + E2E_HLIM */
+#endif
 void h_e2e(void) {
   ldb_comparator_t icmp;
   ldb_memtable_t *mt;
@@ -941,7 +949,7 @@ void h_e2e(void) {
   int i, j, ord[E2E_K];
   uint8_t tb[9]; ldb_slice_t t; ldb_slice_t k, v;
   IN_U8(in_t); IN_INT(in_pos);
-  heap_reset(); RA.ghost = 0; RA.calls = 0; RA.j = 0; rand_reset(); RG.limit = 2;
+  heap_reset(); RA.ghost = 0; RA.calls = 0; RA.j = 0; rand_reset(); RG.limit = E2E_HLIM;
   SA.aligned_calls = 0; SA.plain_calls = 0; SA.inits = 0; SA.clears = 0; SA.usage = 0; SA.overflow = 0;
   MC.j = 0; MC.calls = 0;
   mcmp_setup(&icmp, 1);
@@ -985,7 +993,7 @@ void h_e2e(void) {
   CHECK(!MCG.bad_self, "memtable: every comparison goes through the memtable's comparator copy");
   CHECK(SA.inits == 1 && SA.aligned_calls == 1 + E2E_K && SA.plain_calls == E2E_K && !SA.overflow, "memtable: one arena; one aligned allocation per skip list node (head + one per entry), one plain allocation per entry");
   CHECK(ldb_memtable_usage(mt) == SA.usage, "memtable_usage: the arena's usage");
-  { int bad = 0, l; for (i = 0; i < POOL_N; i++) for (l = 0; l < SKL_MAXH; l++) if (i < SA.aligned_calls && sizeof(void *) * (size_t)(l + 2) > SA.size[i] && g_pool[i].next[l] != MPOISON) bad = 1;
+  { int bad = 0, l; for (i = 0; i < POOL_N; i++) for (l = 0; l < SKL_MAXH; l++) if (i < SA.aligned_calls && sizeof(void *) * (size_t)(l + 2) > SA.size[i] && POOL(i)->next[l] != MPOISON) bad = 1;
     CHECK(!bad, "skip list: no link is written beyond the size a node was allocated with"); }
   CANARY();
 }
